@@ -385,6 +385,13 @@ impl DeserializedMetadataAndRawRows {
         self.metadata.inner()
     }
 
+    /// Returns `true` if the response carried no metadata and the cached metadata
+    /// (shared with the prepared statement) is used in its stead.
+    #[inline]
+    pub fn uses_cached_metadata(&self) -> bool {
+        matches!(self.metadata, ResultMetadataHolder::SharedCached(_))
+    }
+
     /// Consumes the `DeserializedMetadataAndRawRows` and returns metadata
     /// associated with the response (or cached metadata, if used in its stead).
     #[inline]
